@@ -428,6 +428,188 @@ Section Kahn.
       apply topo_app; [exact HT|exact Hr].
   Qed.
 
+  (* ---------- completeness: the sorter never stops before every node whose predecessors are all out ---------- *)
+  Lemma cnt_pos_In x l : 1 <= cnt x l -> In x l.
+  Proof.
+    intros H. destruct (in_dec string_dec x l) as [Hi|Hi]; [exact Hi|].
+    apply cnt_zero_notin in Hi. lia.
+  Qed.
+
+  Lemma allpreds_dec D n : allpreds D n \/ ~ allpreds D n.
+  Proof.
+    destruct (Nat.eq_dec (indeg D n) 0) as [E|E].
+    - left. apply indeg_zero_iff. exact E.
+    - right. intros Hc. apply indeg_zero_iff in Hc. contradiction.
+  Qed.
+
+  Lemma done_succ_mono g ready s x : In x ready -> In x (snd (done_succ (g, ready) s)).
+  Proof.
+    intros Hx. unfold done_succ.
+    destruct (lookup s _) as [j|]; [|exact Hx].
+    destruct (npred j =? 0)%Z; simpl; [apply in_or_app; left; exact Hx|exact Hx].
+  Qed.
+
+  Lemma done_succs_mono l : forall g ready x, In x ready -> In x (snd (fold_left done_succ l (g, ready))).
+  Proof.
+    induction l as [|s l IH]; intros g ready x Hx; cbn [fold_left]; [exact Hx|].
+    pose proof (done_succ_mono g ready s x Hx) as H1.
+    destruct (done_succ (g, ready) s) as [g1 r1]. apply IH. exact H1.
+  Qed.
+
+  (* the occurrence of s that brings its counter to 0 puts s on the ready list *)
+  Lemma done_succs_complete l : forall g ready D seen,
+    Mid g D seen -> (forall s, In s l -> In s ks) ->
+    (forall n, cnt n (seen ++ l) <= indeg D n) ->
+    forall s, In s l -> indeg D s = cnt s (seen ++ l) ->
+    In s (snd (fold_left done_succ l (g, ready))).
+  Proof.
+    induction l as [|s' l IH]; intros g ready D seen HM Hl Hle s Hin Heq; [destruct Hin|].
+    cbn [fold_left].
+    pose proof (done_succ_step g ready D seen s' HM (Hl s' (or_introl eq_refl))) as Hstep.
+    destruct (done_succ (g, ready) s') as [g1 ready1] eqn:Eds.
+    destruct Hstep as [HM1 Hr1].
+    assert (Hle1 : forall n, cnt n ((seen ++ [s']) ++ l) <= indeg D n).
+    { intros n. rewrite <- app_assoc. exact (Hle n). }
+    destruct (in_dec string_dec s l) as [Hsl|Hsl].
+    - apply (IH g1 ready1 D (seen ++ [s']) HM1 (fun x Hx => Hl x (or_intror Hx)) Hle1 s Hsl).
+      rewrite <- app_assoc. exact Heq.
+    - destruct Hin as [->|Hin]; [|contradiction].
+      apply done_succs_mono.
+      (* s is the last occurrence: its counter is now 0 *)
+      apply cnt_zero_notin in Hsl.
+      assert (Hc : indeg D s = cnt s (seen ++ [s])).
+      { rewrite Heq, !cnt_app. simpl. rewrite String.eqb_refl. lia. }
+      destruct HM1 as (Hk1 & _ & Hn1).
+      assert (Hsk : In s ks) by (apply Hl; left; reflexivity).
+      pose proof (Hn1 s Hsk) as Hz. rewrite Hc in Hz.
+      unfold done_succ in Eds.
+      set (g' := g_update g s (fun j => {| npred := npred j - 1; succs := succs j |})) in *.
+      assert (Hkey : In s (keys g')).
+      { unfold g'. rewrite keys_g_update. destruct HM as (Hk & _). rewrite Hk. exact Hsk. }
+      destruct (in_keys_lookup g' s Hkey) as [j Hj]. rewrite Hj in Eds.
+      assert (Hg1 : g1 = g').
+      { destruct (npred j =? 0)%Z; injection Eds as <- _; reflexivity. }
+      unfold gnpred in Hz. rewrite Hg1, Hj in Hz.
+      assert (Hj0 : (npred j =? 0)%Z = true) by (apply Z.eqb_eq; lia).
+      rewrite Hj0 in Eds. injection Eds as _ <-. apply in_or_app. right. left. reflexivity.
+  Qed.
+
+  Lemma done_one_mono g nr p x : In x nr -> In x (snd (done_one (g, nr) p)).
+  Proof.
+    intros Hx. unfold done_one. simpl fst. destruct (lookup p g) as [i|]; [|exact Hx].
+    apply done_succs_mono. exact Hx.
+  Qed.
+
+  Lemma done_all_mono G : forall g nr x, In x nr -> In x (snd (fold_left done_one G (g, nr))).
+  Proof.
+    induction G as [|p G IH]; intros g nr x Hx; cbn [fold_left]; [exact Hx|].
+    pose proof (done_one_mono g nr p x Hx) as H1.
+    destruct (done_one (g, nr) p) as [g1 r1]. apply IH. exact H1.
+  Qed.
+
+  Lemma done_one_complete g nr D p s :
+    Inv g D -> In p ks -> mem p D = false ->
+    In s ks -> allpreds (p :: D) s -> ~ allpreds D s ->
+    In s (snd (done_one (g, nr) p)).
+  Proof.
+    intros (Hk & Hs & Hn) Hp HpD Hsk Ha Hna. unfold done_one. simpl fst.
+    assert (Hp_key : In p (keys g)) by (rewrite Hk; exact Hp).
+    destruct (in_keys_lookup g p Hp_key) as [i Hi]. rewrite Hi.
+    assert (Hsi : succs i = gsuccs g0 p).
+    { rewrite <- Hs. unfold gsuccs. rewrite Hi. reflexivity. }
+    assert (HM : Mid g D []).
+    { split; [exact Hk|]. split; [exact Hs|]. intros n Hnk. rewrite (Hn n Hnk). simpl. lia. }
+    assert (Hl : forall x, In x (succs i) -> In x ks).
+    { intros x Hin. rewrite Hsi in Hin. exact (closed p x Hin). }
+    assert (Hle : forall n, cnt n ([] ++ succs i) <= indeg D n).
+    { intros n. simpl. rewrite Hsi, (indeg_split D p n Hp HpD). lia. }
+    apply indeg_zero_iff in Ha.
+    assert (Hnz : indeg D s <> 0) by (intros Hc; apply Hna, indeg_zero_iff; exact Hc).
+    pose proof (indeg_split D p s Hp HpD) as Hsp. rewrite <- Hsi in Hsp.
+    apply (done_succs_complete (succs i) g nr D [] HM Hl Hle s).
+    - apply cnt_pos_In. lia.
+    - simpl. lia.
+  Qed.
+
+  Lemma done_all_complete G : forall g nr D,
+    Inv g D -> (forall p, In p G -> In p ks) -> NoDup G -> (forall p, In p G -> ~ In p D) ->
+    forall s, In s ks -> allpreds (rev G ++ D) s -> ~ allpreds D s ->
+    In s (snd (fold_left done_one G (g, nr))).
+  Proof.
+    induction G as [|p G IH]; intros g nr D HI Hks Hnd Hdis s Hsk Ha Hna; cbn [fold_left].
+    - simpl in Ha. contradiction.
+    - inversion Hnd as [|? ? HpG Hnd']; subst.
+      assert (HpD : mem p D = false) by (apply mem_false_In; apply Hdis; left; reflexivity).
+      pose proof (done_one_step g nr D p HI (Hks p (or_introl eq_refl)) HpD) as H1.
+      pose proof (done_one_complete g nr D p s HI (Hks p (or_introl eq_refl)) HpD Hsk) as H2.
+      destruct (done_one (g, nr) p) as [g1 nr1].
+      destruct H1 as [HI1 _]. simpl snd in H2.
+      destruct (allpreds_dec (p :: D) s) as [Hp|Hp].
+      + apply done_all_mono. exact (H2 Hp Hna).
+      + assert (Hdis1 : forall q, In q G -> ~ In q (p :: D)).
+        { intros q Hq [E|Hc]; [subst q; contradiction|]. apply (Hdis q (or_intror Hq) Hc). }
+        apply (IH g1 nr1 (p :: D) HI1 (fun q Hq => Hks q (or_intror Hq)) Hnd' Hdis1 s Hsk); [|exact Hp].
+        cbn [rev] in Ha. rewrite <- app_assoc in Ha. exact Ha.
+  Qed.
+
+  (* K plus: nothing that is ready has been forgotten *)
+  Definition Kc (g : graph) (ready out : list string) : Prop :=
+    K g ready out /\ forall n, In n ks -> allpreds out n -> In n (out ++ ready).
+
+  Lemma kahn_complete fuel : forall g ready out,
+    Kc g ready out -> length ks < fuel + length out ->
+    exists res, kahn fuel g ready out = Some res
+                /\ forall n, In n ks -> allpreds res n -> In n res.
+  Proof.
+    induction fuel as [|f IH]; intros g ready out [(HI & Hnd & Hr & HT) Hc] Hfuel.
+    - (* no fuel: out already holds more names than there are nodes *)
+      exfalso.
+      assert (Hincl : incl (out ++ ready) ks).
+      { intros x Hx. apply in_app_or in Hx. destruct Hx as [Hx|Hx];
+          [exact (proj1 (topo_in out x HT Hx))|exact (proj1 (Hr x Hx))]. }
+      pose proof (NoDup_incl_length Hnd Hincl) as Hlen. rewrite app_length in Hlen. simpl in Hfuel. lia.
+    - destruct ready as [|r ready].
+      + simpl. exists out. split; [reflexivity|]. intros n Hn Ha.
+        specialize (Hc n Hn Ha). rewrite app_nil_r in Hc. exact Hc.
+      + remember (r :: ready) as G eqn:EG.
+        assert (Hunf : kahn (S f) g G out = (let '(g', ready') := done_all g G in kahn f g' ready' (out ++ G))).
+        { subst G. reflexivity. }
+        rewrite Hunf. clear Hunf. unfold done_all.
+        destruct (NoDup_app_elim _ _ Hnd) as (Hnd_out & Hnd_G & Hdis).
+        assert (Hdis' : forall p, In p G -> ~ In p out).
+        { intros p Hp Hcc. exact (Hdis p Hcc Hp). }
+        pose proof (done_all_fold G g [] out HI (fun p Hp => proj1 (Hr p Hp)) Hnd_G Hdis') as H.
+        pose proof (done_all_complete G g [] out HI (fun p Hp => proj1 (Hr p Hp)) Hnd_G Hdis') as Hcomp.
+        destruct (fold_left done_one G (g, [])) as [g' nr'].
+        destruct H as [HI' (added & Ha & Hnda & Hadd)]. simpl in Ha. subst nr'. simpl snd in Hcomp.
+        assert (Hincl : incl (out ++ G) ks).
+        { intros x Hx. apply in_app_or in Hx. destruct Hx as [Hx|Hx];
+            [exact (proj1 (topo_in out x HT Hx))|exact (proj1 (Hr x Hx))]. }
+        apply (IH g' added (out ++ G)).
+        * split.
+          { split.
+            { apply (Inv_ext g' (rev G ++ out)); [|exact HI'].
+              intros x. rewrite !in_app_iff, <- in_rev. tauto. }
+            split.
+            { apply NoDup_app_intro; [exact Hnd|exact Hnda|].
+              intros x Hx Hcc. destruct (Hadd x Hcc) as (_ & _ & Hno). apply Hno.
+              apply in_app_or in Hx. destruct Hx as [Hx|Hx].
+              - exact (proj2 (topo_in out x HT Hx)).
+              - exact (proj2 (Hr x Hx)). }
+            split.
+            { intros n Hn. destruct (Hadd n Hn) as (H1 & H2 & _). split; [exact H1|].
+              apply (allpreds_mono (rev G ++ out)); [|exact H2].
+              intros x Hx. apply in_app_or in Hx. apply in_or_app. rewrite <- in_rev in Hx. tauto. }
+            apply topo_app; [exact HT|exact Hr]. }
+          intros n Hn Han.
+          destruct (allpreds_dec out n) as [Ho|Ho].
+          -- apply in_or_app. left. exact (Hc n Hn Ho).
+          -- apply in_or_app. right. apply (Hcomp n Hn); [|exact Ho].
+             apply (allpreds_mono (out ++ G)); [|exact Han].
+             intros x Hx. apply in_app_or in Hx. apply in_or_app. rewrite <- in_rev. tauto.
+        * rewrite app_length. subst G. simpl. simpl in Hfuel. lia.
+  Qed.
+
   Lemma undone_nil : undone [] = ks.
   Proof.
     unfold undone. generalize ks. intros l. induction l as [|k l IH]; [reflexivity|].
@@ -463,6 +645,45 @@ Section Kahn.
       apply (@NoDup_length_incl _ out ks Hnd); [|exact Hincl|exact Hn].
       unfold ks, keys. rewrite map_length, El. apply le_n.
     - intros pre n post E p Hp Hn. exact (proj2 (HT pre n post E) p Hp Hn).
+  Qed.
+  (* the converse: when the edges admit a ranking (the graph is acyclic) graphlib never raises CycleError *)
+  Theorem static_order_complete (rank : string -> nat) :
+    (forall p n, In p ks -> In n (gsuccs g0 p) -> rank p < rank n) ->
+    exists res, static_order g0 = Some res.
+  Proof.
+    intros Hrank.
+    assert (HK : K g0 (ready0 g0) []).
+    { split; [split; [reflexivity|split; [reflexivity|exact npred_ok]]|].
+      split; [simpl; apply (NoDup_keys_filter _ g0 ks_nodup)|].
+      split; [|intros pre n post E; destruct pre; discriminate].
+      intros n Hn. unfold ready0 in Hn. apply in_map_iff in Hn. destruct Hn as [[k i] [E Hin]].
+      simpl in E. subst k. apply filter_In in Hin. destruct Hin as [Hin Hz]. simpl in Hz.
+      assert (Hnk : In n ks) by (apply (in_map fst) in Hin; exact Hin).
+      split; [exact Hnk|]. apply indeg_zero_iff.
+      pose proof (npred_ok n Hnk) as Hnp. unfold gnpred in Hnp.
+      rewrite (lookup_NoDup_In n i g0 ks_nodup Hin) in Hnp. apply Z.eqb_eq in Hz. lia. }
+    assert (HKc : Kc g0 (ready0 g0) []).
+    { split; [exact HK|]. intros n Hn Ha. simpl.
+      apply indeg_zero_iff in Ha. pose proof (npred_ok n Hn) as Hnp. rewrite Ha in Hnp.
+      destruct (in_keys_lookup g0 n Hn) as [i Hi]. unfold gnpred in Hnp. rewrite Hi in Hnp.
+      unfold ready0. apply in_map_iff. exists (n, i). split; [reflexivity|].
+      apply filter_In. split; [apply lookup_Some_In; exact Hi|]. simpl. apply Z.eqb_eq. exact Hnp. }
+    assert (Hfuel : length ks < S (length g0) + length (@nil string)).
+    { unfold ks, keys. rewrite map_length. simpl. lia. }
+    destruct (kahn_complete (S (length g0)) g0 (ready0 g0) [] HKc Hfuel) as [out [Ek Hall]].
+    destruct (kahn_sound _ _ _ _ _ HK Ek) as [Hnd HT].
+    (* every node is out, by induction on its rank *)
+    assert (Hevery : forall k n, rank n < k -> In n ks -> In n out).
+    { induction k as [|k IHk]; intros n Hlt Hn; [lia|].
+      apply (Hall n Hn). intros p Hp Hpn. apply (IHk p); [|exact Hp].
+      pose proof (Hrank p n Hp Hpn). lia. }
+    unfold static_order. rewrite Ek.
+    assert (Hlen : length out = length g0).
+    { assert (Hincl : incl out ks) by (intros x Hx; exact (proj1 (topo_in out x HT Hx))).
+      assert (Hincl' : incl ks out) by (intros x Hx; exact (Hevery (S (rank x)) x (Nat.lt_succ_diag_r _) Hx)).
+      pose proof (NoDup_incl_length Hnd Hincl). pose proof (NoDup_incl_length ks_nodup Hincl').
+      unfold ks, keys in *. rewrite map_length in *. lia. }
+    rewrite Hlen, Nat.eqb_refl. exists out. reflexivity.
   Qed.
 End Kahn.
 
@@ -775,6 +996,56 @@ Proof.
   - intros pre n post E Hn d Hd. apply (Hc pre n post E d).
     + unfold g. apply keys_build. right. right. exists n. split; assumption.
     + unfold g. apply gsuccs_build. right. split; assumption.
+Qed.
+
+(* the converse for graphs built by add: dependencies that admit a ranking are always ordered *)
+Theorem build_order_complete dp names (rank : string -> nat) :
+  (forall n d, In n names -> In d (dp n) -> rank d < rank n) ->
+  exists ord, static_order (build dp names []) = Some ord.
+Proof.
+  intros Hrank. set (g := build dp names []).
+  destruct (build_good dp names [] Good_nil) as (H1 & H2 & H3). fold g in H1, H2, H3.
+  assert (Hnp : forall n, In n (keys g) -> gnpred g n = Z.of_nat (indeg g [] n)).
+  { intros n Hn. rewrite (H3 n Hn). unfold indeg, total_in. rewrite undone_nil, Nat.add_0_r. reflexivity. }
+  apply (static_order_complete g H1 H2 Hnp rank).
+  intros p n _ Hn. unfold g in Hn. apply gsuccs_build in Hn. destruct Hn as [Hn|[Hn Hd]].
+  - unfold gsuccs in Hn. simpl in Hn. destruct Hn.
+  - exact (Hrank n p Hn Hd).
+Qed.
+
+(* graphlib raises CycleError exactly for the dependency relations without a ranking *)
+Lemma index_split_lt (ord pre post : list string) n d :
+  NoDup ord -> ord = pre ++ n :: post -> In d pre ->
+  forall i j, index_of d ord = Some i -> index_of n ord = Some j -> i < j.
+Proof.
+  intros Hnd E Hd i j Hi Hj.
+  apply in_split in Hd. destruct Hd as [p1 [p2 Ep]].
+  assert (Ed : ord = p1 ++ d :: (p2 ++ n :: post)).
+  { rewrite E, Ep, <- app_assoc. reflexivity. }
+  assert (Hi' : index_of d ord = Some (length p1)).
+  { apply NoDup_index_of; [exact Hnd|]. rewrite Ed, nth_error_app2, Nat.sub_diag; [reflexivity|lia]. }
+  assert (Hj' : index_of n ord = Some (length pre)).
+  { apply NoDup_index_of; [exact Hnd|]. rewrite E, nth_error_app2, Nat.sub_diag; [reflexivity|lia]. }
+  rewrite Hi in Hi'. rewrite Hj in Hj'. injection Hi' as ->. injection Hj' as ->.
+  rewrite Ep, app_length. simpl. lia.
+Qed.
+
+Theorem build_order_iff_ranked dp names :
+  (exists ord, static_order (build dp names []) = Some ord)
+  <-> exists rank : string -> nat, forall n d, In n names -> In d (dp n) -> rank d < rank n.
+Proof.
+  split.
+  - intros [ord H]. destruct (build_order_sound dp names ord H) as (Hnd & Hall & Hpre).
+    exists (fun x => match index_of x ord with Some i => i | None => 0 end).
+    intros n d Hn Hd.
+    pose proof (Hall n Hn) as Hin. apply in_split in Hin. destruct Hin as [pre [post E]].
+    pose proof (Hpre pre n post E Hn d Hd) as Hdp.
+    destruct (index_of d ord) as [i|] eqn:Ei.
+    2:{ apply index_of_None in Ei. exfalso. apply Ei. rewrite E. apply in_or_app. left. exact Hdp. }
+    destruct (index_of n ord) as [j|] eqn:Ej.
+    2:{ apply index_of_None in Ej. exfalso. apply Ej. rewrite E. apply in_elt. }
+    exact (index_split_lt ord pre post n d Hnd E Hdp i j Ei Ej).
+  - intros [rank Hr]. exact (build_order_complete dp names rank Hr).
 Qed.
 
 (* a cycle among the nodes makes static_order fail (graphlib.CycleError) *)
